@@ -777,11 +777,19 @@ func LookupTerminfo(name string) (*Terminfo, error) {
 
 	// If the user has requested 24-bit color with $COLORTERM, then
 	// amend the value (unless already present).  This means we don't
-	// need to have a value present.
-	if addtruecolor &&
+	// need to have a value present.  The registered entry is shared, so
+	// we amend a copy: otherwise later lookups of the same (or the base)
+	// name would depend on what was looked up before.
+	amendtruecolor := addtruecolor &&
 		t.SetFgBgRGB == "" &&
 		t.SetFgRGB == "" &&
-		t.SetBgRGB == "" {
+		t.SetBgRGB == ""
+	if amendtruecolor || add256color {
+		nt := *t
+		nt.Aliases = append([]string(nil), t.Aliases...)
+		t = &nt
+	}
+	if amendtruecolor {
 
 		// Supply vanilla ISO 8613-6:1994 24-bit color sequences.
 		t.SetFgRGB = "\x1b[38;2;%p1%d;%p2%d;%p3%dm"
